@@ -201,6 +201,9 @@ func (eng *Engine) extLemmaBefore(fc *FnCtx, env *SpecEnv, l *Lemma) error {
 		if ax.Pkg != l.Pkg && !strings.HasSuffix(strings.SplitN(ax.Src, ":", 2)[0], ".spec") {
 			continue
 		}
+		if !axiomInScope(ax, l.Props) {
+			continue // property-scoped axioms (`axiom @Cnn`, ext_lemma_axioms.go) stay out of the lemmas of other properties
+		}
 		aenv := &SpecEnv{fc: fc, vars: map[string]SV{}, cur: env.cur, old: env.old, pkg: eng.pkgOfSpec(&FuncSpec{Pkg: ax.Pkg})}
 		t, e := aenv.evalBool(ax.E)
 		if e != nil {
